@@ -1,6 +1,7 @@
 package harness
 
 import (
+	"strconv"
 	"bytes"
 	"context"
 	"crypto/ecdsa"
@@ -404,9 +405,11 @@ type c10Scenario struct {
 	Timeout  string              `json:"timeout"`
 	ConnFault string             `json:"connection_fault,omitempty"`
 	Resp     map[string]*c10Resp `json:"responses"`
+	Previous string              `json:"previous_probe_of_the_same_scanner,omitempty"` // cut-body | object
 }
 
 const c10Target = "198.51.100.23"
+const c10PrevAddr = "203.0.113.50:9200"
 
 func runC10(t *testing.T, c simrt.Chooser, o Opts) *Out {
 	p := picker{c}
@@ -427,6 +430,9 @@ func runC10(t *testing.T, c simrt.Chooser, o Opts) *Out {
 		connTime = time.Duration(p.n("conntime2", int(2*timeout/2)))*2 + 1
 	}
 	sc.ConnTime = connTime.String()
+	if sc.Scheme == "http" && p.pct("previous", 25) {
+		sc.Previous = []string{"cut-body", "object"}[p.n("prevkind", 2)]
+	}
 	primary, secondary := "/", "/_aliases"
 	if sc.Kind == "docker" {
 		primary, secondary = "info", "version"
@@ -479,6 +485,19 @@ func runC10(t *testing.T, c simrt.Chooser, o Opts) *Out {
 		tcpn = simnet.Install(r)
 		mode := map[string]int{"accept": simnet.Accept, "refuse": simnet.Refuse, "blackhole": simnet.Blackhole}[sc.Connect]
 		tcpn.Lookup = func(a string) *simnet.Server {
+			if a == c10PrevAddr && sc.Previous != "" {
+				prev := &c10Server{run: r, route: func(m, pth string) *c10Resp {
+					if m == "" {
+						return nil
+					}
+					ghost := []byte(fmt.Sprintf(`{"name":"ghost","cluster_name":"ghost","Name":"ghost","ID":"GHOST","tagline":%q}`, strings.Repeat("g", 400)))
+					if sc.Previous == "cut-body" {
+						return &c10Resp{Status: 200, Framing: "length", body: ghost, Pieces: 2, hdrDelay: 1, pieceDelay: 1, Fault: "cut-mid-body"}
+					}
+					return &c10Resp{Status: 200, Framing: "length", body: ghost, Pieces: 1, hdrDelay: 1}
+				}}
+				return &simnet.Server{Mode: simnet.Accept, ConnectTime: time.Microsecond, Handler: prev.handle}
+			}
 			if a != addr {
 				// a third party (redirect target): a perfectly good JSON service
 				third := &c10Server{run: r, route: func(m, pth string) *c10Resp {
@@ -498,6 +517,14 @@ func runC10(t *testing.T, c simrt.Chooser, o Opts) *Out {
 			scanner = elastic.NewScanner(sc.Scheme, elastic.WithDataTimeout(timeout))
 		} else {
 			scanner = docker.NewScanner(sc.Scheme, docker.WithDataTimeout(timeout))
+		}
+		if sc.Previous != "" {
+			// the scanner has already probed another endpoint (whose answer was cut short, or which
+			// served an object of its own): nothing of that may show in this probe
+			pa := strings.Split(c10PrevAddr, ":")
+			pp, _ := strconv.Atoi(pa[1])
+			scanner.Scan(context.Background(), &scan.Request{DstIP: net.ParseIP(pa[0]).To4(), DstPort: uint16(pp)})
+			simrt.Sleep("c10.between", time.Millisecond)
 		}
 		t0 = r.Now()
 		result, scanErr = scanner.Scan(context.Background(), req)
@@ -541,6 +568,9 @@ func runC10(t *testing.T, c simrt.Chooser, o Opts) *Out {
 	// 2. nothing but the target was contacted
 	dials, _ := tcpn.Snapshot()
 	for _, d := range dials {
+		if d.T < t0 {
+			continue // the previous probe of the same scanner
+		}
 		if d.Addr != addr {
 			out.violate("C10.foreign-dial", sig+"/redirect", "%s probe of %s contacted %s (redirect Location %q followed): the record would describe another host", sc.Kind, addr, d.Addr, prim.Location)
 			break
